@@ -25,6 +25,7 @@ struct hreq {
 };
 static struct hreq hreqs[NREQ];
 static bool probe_answers;      /* probe providers answer immediately */
+static bool probe_unhandled;    /* no probe of the hierarchy provides this kind of request: the event comes back unhandled */
 static int req_in_register = -1;
 
 static int hreq_provide(struct urequest *ur, va_list args)
@@ -140,16 +141,22 @@ static void req_sink_sync_answer(int sink, struct urequest *proxy)
                       sink, k);
 }
 
-void req_probe_provide(struct tprobe *p, struct upipe *upipe, struct urequest *urequest)
+int req_probe_provide(struct tprobe *p, struct upipe *upipe, struct urequest *urequest)
 {
     (void)upipe;
     int k = req_root(urequest);
     sim_ev("provide_request_at_probe", (uint64_t)p->id, (uint64_t)(int64_t)k);
     if (k < 0)
-        return;                 /* not one of ours (a pipe's own request) */
+        return UBASE_ERR_NONE;  /* not one of ours (a pipe's own request) */
     SIM_PROBE("req_reached_probe_of_last_pipe");
-    if (!probe_answers)
-        return;
+    if (!probe_answers) {
+        /* (what a real hierarchy without a provider for that type gives: the
+         * requester sees "unhandled", the request stays registered and must be
+         * re-issued when an output is connected) */
+        if (probe_unhandled)
+            SIM_PROBE("req_unhandled_by_every_probe");
+        return probe_unhandled ? UBASE_ERR_UNHANDLED : UBASE_ERR_NONE;
+    }
     int before = hreqs[k].ncb;
     uint64_t value = 7000 + (uint64_t)p->id;
     answer(urequest, hreqs[k].type, value);
@@ -157,6 +164,7 @@ void req_probe_provide(struct tprobe *p, struct upipe *upipe, struct urequest *u
         sim_violation(V_REQ_ANSWER, "answer given by the probe of node %d did not reach request %d "
                       "(callbacks %d -> %d, value %" PRIu64 ")", p->id, k, before, hreqs[k].ncb,
                       hreqs[k].last_value);
+    return UBASE_ERR_NONE;
 }
 
 bool req_check_quiescent(const char *when)
@@ -213,6 +221,7 @@ void req_do_op(const struct sim_op *op)
         r->ncb = 0;
         r->action = (int)((uint64_t)op->a[3] % 3);
         probe_answers = ((uint64_t)op->a[2] & 1) != 0;
+        probe_unhandled = ((uint64_t)op->a[2] & 2) != 0;
         int ret = upipe_register_request(pipes[0].upipe, &r->ureq);
         SIM_PROBE("req_registered");
         if (!ubase_check(ret) && ret != UBASE_ERR_UNHANDLED)
@@ -305,7 +314,7 @@ void gen_req(struct sim_rng *r, struct sim_plan *p)
     for (int i = 0; i < n; i++) {
         uint32_t c = sim_rng_below(r, 100);
         int pp = (int)sim_rng_below(r, MAXP);
-        if (c < 26) sim_plan_add(p, 0, OP_REQ_REGISTER, sim_rng_below(r, NREQ), sim_rng_below(r, 2), sim_rng_below(r, 2), sim_rng_chance(r, 1, 2) ? sim_rng_below(r, 3) : 0, 0, 0);
+        if (c < 26) sim_plan_add(p, 0, OP_REQ_REGISTER, sim_rng_below(r, NREQ), sim_rng_below(r, 2), sim_rng_below(r, 4), sim_rng_chance(r, 1, 2) ? sim_rng_below(r, 3) : 0, 0, 0);
         else if (c < 40) sim_plan_add(p, 0, OP_REQ_UNREGISTER, sim_rng_below(r, NREQ), 0, 0, 0, 0, 0);
         else if (c < 58) sim_plan_add(p, 0, OP_REQ_PROVIDE, sim_rng_below(r, MAXS), sim_rng_below(r, 8), sim_rng_below(r, 1000), sim_rng_below(r, 2), 0, 0);
         else if (c < 84) sim_plan_add(p, 0, OP_SET_OUTPUT, pp, sim_rng_below(r, 4), 0, sim_rng_below(r, 4), 0, 0);
